@@ -5,6 +5,7 @@ import SqiProofs.LllGuard
 import SqiProofs.LllGram
 import SqiProofs.LllResp
 import SqiProofs.LllEnum
+import SqiProofs.LllProg
 /- Property C16 — "Lattice reduction keeps the lattice and reduces it; responses are short".
    Property theorems only (+ non-vacuity examples); lemmas live in SqiProofs/Lll*.lean, models in
    SqiModel/{Lll,Dim2}.lean (tied to the C code by the correspondence / certificate harness tools/props/c16.py). -/
@@ -50,6 +51,57 @@ example :
     (run ops ⟨⟨5, 0, 0, 0⟩, ⟨3, 7, 0, 0⟩, ⟨1, 2, 3, 0⟩, ⟨4, 4, 4, 1⟩⟩).1 ≠ ⟨⟨5, 0, 0, 0⟩, ⟨3, 7, 0, 0⟩, ⟨1, 2, 3, 0⟩, ⟨4, 4, 4, 1⟩⟩ := by
   decide
 
+
+/-! ## (1-T) the op-list model is the C TEXT: integer slice of lll.c, translated on every run
+
+`tools/translate/lllops.py` slices `src/quaternion/ref/generic/lll.c`: it keeps the integer statements of `RED` / `SWAP`
+(unrolled per entry), drops the `mpf` statements, turns float-dependent values/branches into ORACLE choices, extracts the
+events and the main-loop shape of `quat_lattice_lll`, and writes `SqiGen/LllOps.lean` (data for the interpreter
+`SqiModel/LllProg.lean`).  The theorems below are about that generated data, for EVERY oracle. -/
+open SqiModel.LllProg in
+/-- RED, as extracted from the C text: for every k, l, every oracle quotient `q` and all matrices the integer statements
+    are exactly `Op.red k l q` on `basis` and on `H`; when the oracle takes the early exit (`|u| <= 0.5`, which precedes
+    every integer statement) nothing changes.  SWAP, as extracted: exactly `Op.swap k` on both. -/
+theorem lll_text_red_swap_bodies (k l : Fin 4) (q : Int) (b h : Mat4) :
+    runRED SqiGen.LllOps.red k l false q (b, h) = step (b, h) (.red k l q) ∧
+    runRED SqiGen.LllOps.red k l true q (b, h) = (b, h) ∧
+    SqiGen.LllOps.red.quotientFromFloat = true ∧
+    runSWAP SqiGen.LllOps.swap k (b, h) = step (b, h) (.swap k) :=
+  ⟨SqiProofs.LllProg.red_body k l q b h, SqiProofs.LllProg.red_exit k l q (b, h), rfl,
+   SqiProofs.LllProg.swap_body k b h⟩
+
+open SqiModel.LllProg in
+/-- positions in `quat_lattice_lll`, as extracted: the exact rank test (`return -1`) comes FIRST, before the precision is
+    set and before any float; then transpose-in, `H := I`, the main loop, transpose-out; the zero test inside the loop
+    looks at the mpf value itself (`mpf_sgn(B[k]) == 0`, not a double conversion) and returns -1. -/
+theorem lll_text_positions :
+    SqiGen.LllOps.skeleton.events =
+      [.rankTestReturnMinus1, .setPrecision, .transposeIn, .initHIdentity, .mainLoop, .transposeOut] ∧
+    SqiGen.LllOps.skeleton.loop.zeroTest = .mpfSgn ∧ SqiGen.LllOps.skeleton.loop.zeroTestReturnsMinus1 = true :=
+  ⟨SqiProofs.LllProg.events_order, SqiProofs.LllProg.zero_test_exact⟩
+
+open SqiModel.LllProg in
+/-- **the code text preserves the lattice**: for EVERY list of oracle decisions (every float trajectory) the extracted
+    main loop (`int k = 1; while (k < 4) { RED(k,k-1); oracle ? {SWAP(k); k = max(k-1,1)} : {RED(k,l), l = k-2..0; k++} }`)
+    issues only valid operations, the extracted program executed through the extracted RED / SWAP bodies is
+    `runCols ops lattice`, hence `red = lattice·Hᵀ` with det H = ±1 and the same column lattice. -/
+theorem lll_text_preserves_lattice (ds : List Decision) (lat : Mat4) :
+    let ops := loopOps SqiGen.LllOps.skeleton.loop ds SqiGen.LllOps.skeleton.loop.kInit
+    (∀ op ∈ ops, op.valid = true) ∧
+    textLll SqiGen.LllOps.red SqiGen.LllOps.swap SqiGen.LllOps.skeleton ds lat = runCols ops lat ∧
+    ((toM (run ops lat.transpose).2).det = 1 ∨ (toM (run ops lat.transpose).2).det = -1) ∧
+    rowSpan (toM (textLll SqiGen.LllOps.red SqiGen.LllOps.swap SqiGen.LllOps.skeleton ds lat)).transpose
+      = rowSpan (toM lat).transpose := by
+  intro ops
+  have hv : ∀ op ∈ ops, op.valid = true := SqiProofs.LllProg.loopOps_valid ds _ (by decide)
+  obtain ⟨_, hd, hs⟩ := lll_ops_preserve_span_cols ops hv lat
+  refine ⟨hv, SqiProofs.LllProg.textLll_eq ds lat, hd, ?_⟩
+  rw [SqiProofs.LllProg.textLll_eq ds lat]; exact hs
+
+/-- non-vacuity: a concrete oracle run of the extracted text (RED(1,0) with q = 3, swap; then no swap …) -/
+example : (SqiModel.LllProg.loopOps SqiGen.LllOps.skeleton.loop
+    [⟨(false, 3), true, []⟩, ⟨(true, 0), false, []⟩, ⟨(false, -2), false, [(false, 1)]⟩, ⟨(true, 0), false, [(false, 5), (true, 0)]⟩] 1)
+    = [Op.red 1 0 3, Op.swap 1, Op.red 2 1 (-2), Op.red 2 0 1, Op.red 3 1 5] := by decide
 
 /-! ## (2) reducedness: certificate checking with a proved checker   (PARTIAL)
 
